@@ -361,6 +361,29 @@ def check_observer(chk, m, fn, cfg):
         ok, detail = verdict
         chk.ob("R4.empty-observer", tag, ok, detail, fn.loc, fn.name)
         return
+    n_before = len(chk.obligations) if hasattr(chk, "obligations") else None
+    judged = [False]
+    _ob, _unk = chk.ob, chk.unknown
+
+    def ob2(*a, **k):
+        judged[0] = True
+        return _ob(*a, **k)
+
+    def unk2(*a, **k):
+        judged[0] = True
+        return _unk(*a, **k)
+    chk.ob, chk.unknown = ob2, unk2
+    try:
+        _check_observer_structurally(chk, m, fn, cfg, tag)
+    finally:
+        chk.ob, chk.unknown = _ob, _unk
+    if not judged[0]:
+        chk.unknown("R4.empty-observer", tag, "%s does not decide from the two indices (readi, writei) at all: what it reads instead is "
+                    "state these rules have no model of - whether it can report 'empty' while a published byte is waiting is not decided"
+                    % fn.name, fn.loc)
+
+
+def _check_observer_structurally(chk, m, fn, cfg, tag):
     for p in paths.enumerate_paths(fn, m):
         if paths.is_assert_fail_path(p):
             continue
@@ -372,6 +395,11 @@ def check_observer(chk, m, fn, cfg):
             for side in (r[2], r[3]):
                 if side[0] == "ald":
                     fs.add(_field(side[1], fn, m))
+            if not fs:
+                chk.unknown("R4.empty-observer", tag, "%s does not compare the two indices: it decides from %s, state these rules have no "
+                            "model of - whether it can report 'empty' while a published byte is waiting is not decided"
+                            % (fn.name, fmt(r)[:60]), p.ret_inst.loc)
+                continue
             chk.ob("R4.empty-observer", tag, fs == {"readi", "writei"},
                    "returns (readi == writei) computed from atomic loads (fields compared: %s)" % sorted(map(str, fs)),
                    p.ret_inst.loc, fn.name)
@@ -422,8 +450,13 @@ def run_config(chk, cfg):
         if role in ("producer", "consumer"):
             n_pub += check_role_fn(chk, m, fn, role, cfg)
         elif role == "observer":
-            if fn.ret_ty in ("i1", "i8", "i32") and any(a.field in ("readi", "writei") for a in acc):
+            if fn.ret_ty in ("i1", "i8", "i32") and (any(a.field in ("readi", "writei") for a in acc) or fn.name == "ringbuf_empty"):
                 check_observer(chk, m, fn, cfg)
+    # the API's own observer is examined even when it no longer reads the descriptor itself (it asks a helper)
+    if "ringbuf_empty" not in [fn.name for m, fn, acc in fns]:
+        for m in mods:
+            if m.unit.endswith("ringbuf.c") and m.has_fn("ringbuf_empty") and m.fn("ringbuf_empty").blocks:
+                check_observer(chk, m, m.fn("ringbuf_empty"), cfg)
     # roles are transitive inside the ring-buffer module: an API function of ringbuf.c must not act for both sides
     prog = flow.Program(mods)
     direct = {}
